@@ -68,6 +68,11 @@ type Exec struct {
 	Log       []string // optional op log (schedule rendering)
 	keepLog   bool
 	EnvBudget int // how many timer fires the environment may still make
+	// keep pins every channel and watched object whose ADDRESS keys scheduler state (closed, chanVC,
+	// locs) for the duration of the execution: without it the collector may free a first connection's
+	// channel and hand the same address to a later one, which would inherit "closed" (the real receive
+	// then blocks for ever) or a stale access history (spurious race)
+	keep map[uintptr]interface{}
 }
 
 type locState struct {
@@ -305,7 +310,11 @@ func Point(site string) {
 
 func chanPtr(ch interface{}) (reflect.Value, uintptr) {
 	v := reflect.ValueOf(ch)
-	return v, v.Pointer()
+	p := v.Pointer()
+	if e := cur; e != nil {
+		e.keep[p] = ch
+	}
+	return v, p
 }
 
 // AwaitSend blocks (cooperatively) until a send on ch cannot block, and records the happens-before edge.
@@ -500,7 +509,9 @@ func AccessAt(p interface{}, name string, write bool, site string) {
 	if cur == nil {
 		return
 	}
-	Access(fmt.Sprintf("%s@%x", name, reflect.ValueOf(p).Pointer()), write, site)
+	a := reflect.ValueOf(p).Pointer()
+	cur.keep[a] = p
+	Access(fmt.Sprintf("%s@%x", name, a), write, site)
 }
 
 // AccessPtr is Access keyed by the identity of a buffer.
@@ -509,6 +520,7 @@ func AccessPtr(p interface{}, write bool, site string) {
 		return
 	}
 	v := reflect.ValueOf(p)
+	cur.keep[v.Pointer()] = p
 	Access(fmt.Sprintf("buf@%x", v.Pointer()), write, site)
 }
 
@@ -564,7 +576,7 @@ type Options struct {
 // Run executes body as thread 0 under the given choice prefix and returns the execution record.
 func Run(prefix []int, opt Options, body func()) *Exec {
 	e := &Exec{prefix: prefix, finished: make(chan struct{}, 1), horizon: opt.Horizon, EnvBudget: opt.EnvBudget, keepLog: opt.KeepLog,
-		chanVC: map[uintptr][][]int{}, closeVC: map[uintptr][]int{}, closed: map[uintptr]bool{}, mutexVC: map[interface{}][]int{}, locs: map[string]*locState{}, Races: map[string]string{}}
+		chanVC: map[uintptr][][]int{}, closeVC: map[uintptr][]int{}, closed: map[uintptr]bool{}, mutexVC: map[interface{}][]int{}, locs: map[string]*locState{}, Races: map[string]string{}, keep: map[uintptr]interface{}{}}
 	if e.horizon == 0 {
 		e.horizon = 100000
 	}
